@@ -2706,6 +2706,13 @@ impl CompleteTypeObject {
                         {
                             return false;
                         }
+                        // an optional member of a FINAL/APPENDABLE type is preceded by a presence flag
+                        // (XCDR2) / parameter header (XCDR1) that a non-optional member does not have
+                        if (m1.common.member_flags.0 & MEMBER_FLAG_IS_OPTIONAL.0)
+                            != (m2.common.member_flags.0 & MEMBER_FLAG_IS_OPTIONAL.0)
+                        {
+                            return false;
+                        }
                         if !m1
                             .common
                             .member_type_id
